@@ -112,8 +112,13 @@ impl anstyle_parse::Perform for WinconCapture {
         let mut g = None;
         let mut color_target = ColorTarget::Fg;
         for param in params {
-            if let (State::Normal, [target @ (38 | 48 | 58), 2, _color_space, r, g, b]) = (state, param) {
-                // ITU T.416: `38:2:<color-space>:r:g:b`, the color space is ignored
+            if param.len() > 1 {
+                // Sub-parameters (`4:3`, `38:5:n`) are self-contained, they don't span parameters
+                state = State::Normal;
+            }
+            if let (State::Normal, [target @ (38 | 48 | 58), 2, _color_space, r, g, b, ..]) = (state, param) {
+                // ITU T.416: `38:2:<color-space>:r:g:b[:...]`, the color space and the optional
+                // trailing fields are ignored
                 if let Some(color) = to_rgb_color(*r, *g, *b) {
                     style = match target {
                         38 => style.fg_color(Some(color.into())),
@@ -268,7 +273,7 @@ impl anstyle_parse::Perform for WinconCapture {
                     }
                 }
             }
-            if state == State::Underline {
+            if state == State::Underline || param.len() > 1 {
                 // The underline style is a sub-parameter (`4:3`), it doesn't span parameters
                 state = State::Normal;
             }
